@@ -308,7 +308,14 @@ func genC18(rng *rand.Rand, tier string, w *bufio.Writer) {
 	// the stale close callback: instance 0 closes, instance 1 is summoned, Destroy() on the old handle
 	// deletes the map entry by name, the next summoner constructs instance 2 next to the live instance 1
 	fmt.Fprintln(w, "case 3\ngo 1\ngo 1\ngo 1\ngo 1\ngo 1\ngo 1\nclose\ngo 2\ngo 2\ngo 2\ngo 2\ngo 2\ngo 2\ndestroyold 0\ngo 3\ngo 3\ngo 3\ngo 3\ncloseold 1\ndestroyold 1\ndestroyold 1")
-	for c := 4; c < cases; c++ {
+	// genuinely concurrent summoners of a fresh name: exactly one instance, no slot left behind
+	fmt.Fprintln(w, "case 4\nburst 24")
+	fmt.Fprintln(w, "case 5\nburst 8")
+	for c := 6; c < cases; c++ {
+		if c%15 == 0 {
+			fmt.Fprintf(w, "case %d\nburst %d\n", c, 4+rng.Intn(28))
+			continue
+		}
 		fmt.Fprintf(w, "case %d\n", c)
 		n := 6 + rng.Intn(maxLen)
 		nt := 2 + rng.Intn(3)
@@ -396,6 +403,39 @@ func runC18(in *bufio.Scanner, out *bufio.Writer) {
 				w.timeout()
 				fmt.Fprintf(out, "close unexpected-timeout %s\n", w.state())
 			}
+		case "burst":
+			// N genuinely concurrent SummonSwamp calls (no goroutine is stopped; several waiters share the slot)
+			n, err := strconv.Atoi(f[len(f)-1])
+			if err != nil || len(f) != 2 || n < 2 || n > 64 || len(w.threads) > 0 || w.news.Load() > 0 {
+				fmt.Fprintln(out, "skip")
+				break
+			}
+			var wg sync.WaitGroup
+			start := make(chan struct{})
+			errs := atomic.Int64{}
+			for i := 0; i < n; i++ {
+				wg.Add(1)
+				go func() {
+					defer wg.Done()
+					<-start
+					if _, err := w.hy.SummonSwamp(context.Background(), 1, w.swName); err != nil {
+						errs.Add(1)
+					}
+				}()
+			}
+			close(start)
+			fin := make(chan struct{})
+			go func() { wg.Wait(); close(fin) }()
+			res := "ok"
+			select {
+			case <-fin:
+			case <-time.After(10 * time.Second):
+				w.timeout()
+				res = "unexpected-timeout"
+			}
+			_, mapped := hydra.VerifMappedSwamp(w.hy, w.swName.Get())
+			_, slot := hydra.VerifSummonSlot(w.hy, w.swName.Get())
+			fmt.Fprintf(out, "burst %d %s errors=%d made=%d mapped=%v slotleft=%v\n", n, res, errs.Load(), w.news.Load(), mapped, slot)
 		case "closeold", "destroyold":
 			k, err := strconv.Atoi(f[len(f)-1])
 			if err != nil || len(f) != 2 || k < 0 || k >= len(w.insts) {
